@@ -118,6 +118,10 @@ func drawC09(src *vs.Src) *c09Params {
 			for i := 0; i < L; i++ {
 				p.Raw = append(p.Raw, byte(src.Intn(256)))
 			}
+			if L > 0 && src.Bool(1, 3) {
+				// the header announces more than the datagram / the stream carries
+				p.Raw = p.Raw[:len(hdr)+src.Intn(L)]
+			}
 		}
 	case 8:
 		p.Mode = "certs"
